@@ -121,6 +121,9 @@ func alphabet() []item {
 	grp("W", "Wy", "W")
 	grp("LLSF", "W")
 	grp("W", "LLSF")
+	// an earlier member writes ANOTHER key than the member that fails later
+	grp("Wy", "WF")
+	grp("Wy", "W", "LLF")
 	for _, f := range []string{"WF", "LLF"} {
 		grp(f, "W")
 		grp("W", f)
